@@ -11,9 +11,9 @@ RULE = ('case = (solver, deterministic idempotent box-compatible constraint (pin
 ASSUMPTIONS = ['constraints are deterministic, idempotent and map the strict ranges into themselves',
                'reported-solution claims only when the constraints were installed before the first Step']
 CLASSES = {
-    'constrained': {'quick': 9600, 'thorough': 96000},
-    'inplace_vs_pure': {'quick': 1920, 'thorough': 19200},
-    'wrappers': {'quick': 400, 'thorough': 6000},
+    'constrained': {'quick': 19200, 'thorough': 96000},
+    'inplace_vs_pure': {'quick': 3840, 'thorough': 19200},
+    'wrappers': {'quick': 800, 'thorough': 6000},
 }
 MIN_EVENTS = {'quick': {'assert:c03': 30000, 'constraint_altered': 3000, 'step_boundaries': 3000}}
 CASE_TIMEOUT = 120
